@@ -11,6 +11,7 @@ import (
 	"encoding/json"
 	"fmt"
 	"io"
+	"math/rand"
 	"net/http/httptest"
 	"os"
 	"strings"
@@ -124,6 +125,35 @@ func probeScript(args []string) {
 // devCells is a development aid: c11 cells gate|seq|lgate runs every cell of a family in
 // this process and prints the cells that disagree.
 func devCells(kind string) {
+	if kind == "sgserial" {
+		// superglobal sections of the load shapes, one request at a time on a used server:
+		// with nothing in flight every answer must equal the solitary one
+		r := rand.New(rand.NewSource(1))
+		bad, n := 0, 0
+		for id := 1; id <= 40; id++ {
+			rd := genRound(r, 900000+id, true)
+			w, err := newLoadedWorld()
+			if err != nil {
+				fmt.Println(err)
+				return
+			}
+			for _, q := range rd.Reqs {
+				b, _ := baseline(q)
+				got := w.serve(q)
+				n++
+				for _, d := range diffObservation(got, b, q.Owner) {
+					bad++
+					fmt.Printf("MISMATCH %s %s: %q vs alone %q (%s)\n", q.Shape, d.Field, clip(d.Got, 80), clip(d.Want, 80), q)
+				}
+				for _, d := range foreignFields(b, q.Owner) {
+					bad++
+					fmt.Printf("FOREIGN-ALONE %s %s: %q\n", q.Shape, d.Field, clip(d.Got, 80))
+				}
+			}
+		}
+		fmt.Printf("%d requests, %d mismatches\n", n, bad)
+		return
+	}
 	var j job
 	switch kind {
 	case "gate":
